@@ -52,3 +52,18 @@ Print Assumptions unguarded_recursion_enumerated.
 (* the full statement "no call path exceeds the stack" is refuted by the current tree *)
 Theorem all_recursion_guarded_refuted : cg_unguarded_recursive <> [].
 Proof. vm_compute. discriminate. Qed.
+Print Assumptions all_recursion_guarded_refuted.
+
+(* Cost (one step towards the k-copies clause): the repaired tokens_prune (fix c2dc4be; model/TokenHeap.v, tied to
+   token.c by the heap correspondence of check C15) does not look at the rest of the chain when the pruned run is
+   followed by another token - its result is four field writes whatever the length of the chain.  A paragraph with n
+   strong spans prunes 2n such inner tokens; before the repair each of them walked the whole chain (n^2). *)
+From MMD.model Require Import TokenHeap.
+From MMD.proofs Require Import TokenHeapDL.
+Local Open Scope N_scope.
+Theorem prune_of_inner_tokens_is_constant_work : forall h x e pvt nb,
+  rd h x Fpv = Some pvt -> rd h e Fnx = Some nb -> pvt <> 0 -> nb <> 0 -> x <> 0 -> e <> 0 ->
+  tokens_prune h x e =
+    (let? h := wr h pvt Fnx nb in let? h := wr h nb Fpv pvt in let? h := wr h x Fpv 0 in wr h e Fnx 0).
+Proof. exact prune_inner_is_four_writes. Qed.
+Print Assumptions prune_of_inner_tokens_is_constant_work.
